@@ -5,7 +5,9 @@ shopt -s extglob
 cd /verif
 for D in seeded/${1:-*}/; do
   N=$(basename $D); [ -f $D/patch.diff ] || continue
-  PROP=$(python3 -c "import json;print(json.load(open('$D/meta.json'))['breaks_property'])" 2>/dev/null || echo ${N%%-*})
+  # the check to run: the broken property's own, unless meta.json names a neighbouring check ("detect_with") because the
+  # property's own oracle cannot see this change by construction (explained in the meta's "strengthening" text)
+  PROP=$(python3 -c "import json;m=json.load(open('$D/meta.json'));print(m.get('detect_with') or m['breaks_property'])" 2>/dev/null || echo ${N%%-*})
   OUT=$(selftest/mutant.sh $D/patch.diff $PROP 2>&1)
   LINE=$(echo "$OUT" | grep -E "^mutant=" | head -1)
   SIG=$(echo "$OUT" | grep "sig=" | head -1 | sed 's/ :: .*//' | sed 's/^ *//')
